@@ -37,6 +37,8 @@ def base_body(rng):
     parts = []
     n = rng.choice([1, 2, 2, 3])
     for i in range(n):
+        if i and rng.random() < 0.3:
+            i -= 1                  # the name of the part before: repeated names are collected in lists
         if rng.random() < 0.5:
             parts.append((f'Content-Disposition: form-data; name="t{i}"', rng.choice([b'v', b'text value', 'é日本'.encode(), b'', b'a\r\nb', b'--Xb', b'x' * 40])))
         else:
